@@ -102,6 +102,7 @@ type World struct {
 	prop      string         // property the running check is about: panics / hangs are attributed to it
 	dead      bool           // a panic / hang happened: the process is poisoned
 	viewBin   string         // tools/view binary (C09)
+	obsCtx    string         // property unlabelled observations are attributed to (C12: collection management must not disturb any handle)
 	scratch   string         // scratch file for the view tool
 }
 
@@ -589,6 +590,8 @@ func (w *World) Obs(h *StoreH, mode string, ctx ...string) bool {
 	ev := Ev{"e": "Obs", "s": h.ID, "mode": mode}
 	if len(ctx) > 0 && ctx[0] != "" {
 		ev["ctx"] = ctx[0]
+	} else if w.obsCtx != "" {
+		ev["ctx"] = w.obsCtx
 	}
 	ok := w.guard("observe", "C10", func() {
 		names := w.collNames(h)
